@@ -316,6 +316,9 @@ def export_3MF(mesh, batch_size=4096, compression=zipfile.ZIP_DEFLATED, compress
             models.append(x)
         return str(models.index(x) + 1)
 
+    # only the node of the camera is skipped: other nodes may
+    # have any name, including ones which start with "camera"
+    cameras = {mesh.camera.name} if mesh.has_camera else set()
 
     # 3mf archive dict {path: BytesIO}
     file_obj = io.BytesIO()
@@ -377,7 +380,7 @@ def export_3MF(mesh, batch_size=4096, compression=zipfile.ZIP_DEFLATED, compress
 
                     # stream components
                     for node in graph.nodes:
-                        if node == base_frame or node.startswith("camera"):
+                        if node == base_frame or node in cameras:
                             continue
                         if len(graph[node]) == 0:
                             continue
@@ -429,7 +432,7 @@ def export_3MF(mesh, batch_size=4096, compression=zipfile.ZIP_DEFLATED, compress
                 # stream build (objects on base_frame)
                 with xf.element("build", {"p:UUID": str(uuid.uuid4())}):
                     for node, data in graph[base_frame].items():
-                        if node.startswith("camera"):
+                        if node in cameras:
                             continue
                         transform = " ".join(
                             str(i) for i in np.array(data["matrix"])[:3, :4].T.flatten()
